@@ -15,13 +15,6 @@ Inductive case :=
 | CResolve (rq : request) (r : resolver) (obs_base : result addr) (attacks : list attack)
 | CParse (s : bytes) (obs : pres addr).
 
-Definition attack_lines (extra : list bytes) (text : option bytes) (lines : list bytes) : list bytes :=
-  extra ++ match text, lines with
-           | Some t, l0 :: rest => (t ++ ","%char :: l0) :: rest
-           | Some t, [] => [t]
-           | None, _ => lines
-           end.
-
 Definition attacked (rq : request) (hdr : N) (extra : list bytes) (text : option bytes) : request :=
   if hdr =? 0 then {| xff := attack_lines extra text (xff rq); forwarded := forwarded rq; single := single rq; remote := remote rq |}
   else if hdr =? 1 then {| xff := xff rq; forwarded := attack_lines extra text (forwarded rq); single := single rq; remote := remote rq |}
